@@ -426,7 +426,7 @@ def hist_set(ch):
     h.lib = mk
     h.lines.append("(define t0 (%s cmp))" % mk)
     for _ in range(8 + ch.n(50)):
-        op = ch.pick(["adjoin", "adjoin", "delete", "union", "intersection", "difference", "contains", "size", "list", "old", "count", "xor"])
+        op = ch.pick(["adjoin", "adjoin", "delete", "union", "intersection", "difference", "contains", "size", "list", "old", "count", "xor", "compare", "compare"])
         a = ch.pick(names)
         x = ch.n(25)
         if op in ("adjoin", "delete", "union", "intersection", "difference", "xor"):
@@ -461,6 +461,14 @@ def hist_set(ch):
             h.updates += 1
         elif op == "contains":
             h.emit("(%s-contains? %s %d)" % (mk, a, x), sc(vers[a][x] > 0))
+        elif op == "compare":
+            # = < <= > >= with multiplicities (a bag is below another iff every count is)
+            b = ch.pick(names)
+            ca, cb = vers[a], vers[b]
+            le = all(ca[k] <= cb[k] for k in ca)
+            ge = all(cb[k] <= ca[k] for k in cb)
+            h.emit("(list (%s=? %s %s) (%s<? %s %s) (%s<=? %s %s) (%s>? %s %s) (%s>=? %s %s))" % (mk, a, b, mk, a, b, mk, a, b, mk, a, b, mk, a, b),
+                   sc([le and ge, le and not ge, le, ge and not le, ge]))
         elif op == "size":
             h.emit("(%s-size %s)" % (mk, a), str(sum(vers[a].values())))
         elif op == "list":
@@ -482,11 +490,12 @@ def hist_ideque(ch):
     names = ["d0"]
     h.lines.append("(define d0 (ideque))")
     for _ in range(8 + ch.n(50)):
-        op = ch.pick(["addf", "addb", "addf", "addb", "remf", "remb", "front", "back", "list", "len", "old", "append", "reverse", "take", "ref"])
+        op = ch.pick(["addf", "addb", "addf", "addb", "remf", "remb", "front", "back", "list", "len", "old", "append", "reverse", "take", "ref",
+                      "drop", "drop", "taker", "dropr"])
         a = ch.pick(names)
         x = ch.n(100)
         cur = vers[a]
-        if op in ("addf", "addb", "remf", "remb", "append", "reverse", "take"):
+        if op in ("addf", "addb", "remf", "remb", "append", "reverse", "take", "drop", "taker", "dropr"):
             new = "d%d" % len(names)
             if op == "addf":
                 h.lines.append("(define %s (ideque-add-front %s %d))" % (new, a, x))
@@ -513,8 +522,11 @@ def hist_ideque(ch):
                 v = cur[::-1]
             else:
                 n = ch.n(len(cur) + 1)
-                h.lines.append("(define %s (ideque-take %s %d))" % (new, a, n))
-                v = cur[:n]
+                fn, v = {"take": ("ideque-take", cur[:n]), "drop": ("ideque-drop", cur[n:]), "taker": ("ideque-take-right", cur[len(cur) - n:]),
+                         "dropr": ("ideque-drop-right", cur[:len(cur) - n])}[op]
+                h.lines.append("(define %s (%s %s %d))" % (new, fn, a, n))
+                # the cached lengths of the two halves must describe the new deque
+                h.emit("(list (ideque-length %s) (ideque->list %s))" % (new, new), sc([len(v), v]))
             vers[new] = v
             names.append(new)
             h.updates += 1
